@@ -13,16 +13,33 @@ from vlib import core
 from vlib.core import cz, cbool, clist
 
 MANIFEST = dict(
-    text='Theorems (Coq; any number of threads, any scripts of client calls, any schedule incl. timeouts at any point): ...',
-    note='Trusted: ...',
-    technique='Coq proof over translator-regenerated semaphore programs + schedule-exact differential correspondence on the real classes',
+    text='Theorems (Coq; any number of threads, any scripts of client calls, any schedule at semaphore-operation grain, '
+         'timed acquires giving up at any step; all Closed under the global context). For ANY programs: an RLock admits one '
+         'holder; a Lock admits one holder while nobody releases what it does not hold; Semaphore(k): value >= 0 and value + '
+         'hold counts = k; a release at the maximum raises ValueError and changes nothing. For the Condition/Event programs '
+         'compiled from synchronize.py on every run (Gen = Model by reflexivity): an inductive invariant (lock accounting, '
+         'sleeping - woken + grabbed = threads between announcement and acknowledgement, 0 <= wait_semaphore <= outstanding '
+         'tokens, flag in {0,1}) holds in every reachable state, hence no assert of notify/notify_all fails and no call raises; '
+         'wait_semaphore = 0 whenever no notify is in progress; wait returns True when untimed; when notify_all has collected its '
+         'acknowledgements nobody is left in the wait window, and (trace form) an untimed waiter blocked while a notify_all body '
+         'runs holds its token when that notify_all reaches its final lock release; notify hands out at most one token; a timed '
+         'wait may give up at any step, then returns False and the invariant still holds; the abstract event flag changes only '
+         'at set/clear and is_set/Event.wait return exactly it. Correspondence: the real classes run over a fake _semlock under '
+         'explicit schedules and must produce the micro-trace, results and final values the Coq interpreter computes from the '
+         'same schedule; Gallina trace monitors classify differences.',
+    note='Trusted: Coq kernel; translate/kernels/semprog.py (Python-ast -> SemProg); the primitive semantics of '
+         '_multiprocessing.SemLock as modelled in Model/SemProg.v (sem_acq/sem_rel; cross-checked sequentially against the real '
+         'primitive on every run); harness/detsched.py. One logical thread = one process. Counters assumed below SEM_VALUE_MAX '
+         '(hypothesis gen_run_small/small). Recursion depth of the condition lock > 1 (client c_wait2) is covered by the '
+         'correspondence only. Liveness/fairness of blocked acquires not modelled.',
+    technique='Coq proof over translator-regenerated semaphore programs (weight functions + case analysis on pc) + schedule-exact differential correspondence on the real classes',
     ref='5.17',
 )
 
 HEADER = '''From Coq Require Import ZArith List Bool.
-From BV Require Import Lib.Cases Model.SemProg Model.CondProg.
+From BV Require Import Lib.Cases Model.SemProg Model.CondProg Model.CondCheck.
 Import ListNotations. Open Scope Z_scope.
-Definition check_case := CondProg.check_case.'''
+Definition check_case := CondCheck.check_case.'''
 
 COND_CALLS = [(0, 0), (0, 0), (0, 1), (0, 1), (1, 0), (1, 0), (2, 0), (2, 0)]
 EVENT_CALLS = [(3, 0), (4, 0), (4, 0), (5, 0), (6, 0), (6, 0), (6, 1)]
@@ -159,7 +176,7 @@ def correspond(res, n):
 
 
 def run(res):
-    res.proof_step('Props/C17.v', extra_targets=['Model/CondProg.vo'], kernels_needed=['P_cond'])
+    res.proof_step('Props/C17.v', extra_targets=['Model/CondCheck.vo'], kernels_needed=['P_cond'])
     n = 300 if res.tier == 'quick' else 20000
     if res.broken:
         n = max(n, 3000)      # failing-input search
